@@ -69,7 +69,28 @@ def marginal_from_weight(w):
     return to_g(1.0 / (1.0 + math.exp(w)))
 
 
+def _register_user_code():
+    """A user-defined code class whose Clifford deformations are the two 3-CYCLES of
+    the Paulis (the library's own deformations are transpositions): the noise model
+    takes whatever permutation get_deformation returns."""
+    import panqec.codes as pc
+    if hasattr(pc, 'CyclicToric2DCode'):
+        return
+
+    class CyclicToric2DCode(pc.Toric2DCode):
+        deformation_names = ['C3', 'C3inv']
+
+        def get_deformation(self, location, deformation_name, deformation_axis='y', **kwargs):
+            if deformation_name not in ('C3', 'C3inv'):
+                return super().get_deformation(location, deformation_name, deformation_axis, **kwargs)
+            if self.qubit_axis(location) != deformation_axis:
+                return {'X': 'X', 'Y': 'Y', 'Z': 'Z'}
+            return {'X': 'Z', 'Z': 'Y', 'Y': 'X'} if deformation_name == 'C3' else {'X': 'Y', 'Y': 'Z', 'Z': 'X'}
+    pc.CyclicToric2DCode = CyclicToric2DCode
+
+
 def subjects(tier):
+    _register_user_code()
     out = [('Toric2DCode', (2, 2)), ('Planar2DCode', (2, 3)), ('Toric3DCode', (2, 2, 2)), ('XCubeCode', (2, 2, 2))]
     if tier != 'quick':
         out += [('RotatedPlanar2DCode', (3, 3)), ('RhombicToricCode', (2, 2, 2)),
@@ -81,6 +102,8 @@ def subjects(tier):
         pick = vs if (tier != 'quick' or name == 'XCubeCode') else vs[:1] + vs[-2:]
         for dn, kw in dict.fromkeys((d, tuple(sorted(k.items()))) for d, k in pick):
             res.append((name, size, dn, dict(kw)))
+    res.append(('CyclicToric2DCode', (2, 2), 'C3', {}))
+    res.append(('CyclicToric2DCode', (2, 2), 'C3inv', {'deformation_axis': 'x'}))
     return res
 
 
@@ -383,7 +406,7 @@ def run(tier):
     full_ = [pt for pt in biased if pt[0] == den]
     biased = [pt for pair in zip(half_, full_) for pt in pair] + half_[len(full_):] + full_[len(half_):]
     for si, (name, size) in enumerate(dict.fromkeys((s[0], s[1]) for s in subs)):
-        if len(codes.deformation_variants(name)) > 2:
+        if name in codes.SUPPORTED and len(codes.deformation_variants(name)) > 2:
             ijobs.append((name, size, den, (biased[2 * (si % 3):] + biased[:2 * (si % 3)])[:6 if tier == 'quick' else 40],
                           common.seed() + si))
     sjobs = []
